@@ -32,7 +32,8 @@ def numeric_agree(kind):
 
 
 def obligations(ctx):
-    obs = []
+    from .c18 import premise_number_from
+    obs = [premise_number_from('C15')]      # first, so that it runs alongside everything else
     ocs = (True,) if ctx.tier == 'quick' else (True, False)
     for oc in ocs:
         tag = 'dbg' if oc else 'rel'
